@@ -156,12 +156,15 @@ UNIT = mk_tuple(())
 
 
 class RcV:
-    __slots__ = ('inner', 'owned', 'cells')
+    """ghost: optional (world, truth table) of a BDD-valued Rc that is known to be the canonical diagram of that
+    table (set by the harness constructor `canon`, preserved by merging); used only by contract summaries"""
+    __slots__ = ('inner', 'owned', 'cells', 'ghost')
 
     def __init__(self, inner, owned=True):
         self.inner = inner
         self.owned = owned
         self.cells = cells_of(inner)
+        self.ghost = None
 
 
 _rc_cache = {}
@@ -366,6 +369,27 @@ def ordid_merge(c, a, b):
     return OrdId(a.atoms, alts)
 
 
+class TableV:
+    """abstract unique table: RefCell<FxHashMap<BDD, Rc<BDD>>> contents.
+    Representation invariant I: every entry maps a key to an Rc whose content is structurally equal to the key, and
+    the two leaves are present.  `get` may hit or miss (fresh Bool) except for leaves (always hit)."""
+    __slots__ = ('tag',)
+    cells = EMPTY
+
+    def __init__(self, tag='table'):
+        self.tag = tag
+
+
+class MapV:
+    """concrete-shape map (any HashMap other than the unique table): association list of (guard, key, value),
+    newest last; lookups compare keys with the key type's PartialEq (possibly symbolic)"""
+    __slots__ = ('items', 'cells')
+
+    def __init__(self, items=()):
+        self.items = tuple(items)
+        self.cells = EMPTY
+
+
 class _Special:
     cells = EMPTY
 
@@ -474,7 +498,10 @@ def merge(c, a, b, ctx=None):
                 ow = True
             elif g_false(ow):
                 ow = False
-        return mk_rc(inner, ow)
+        r = mk_rc(inner, ow)
+        if a.ghost is not None and b.ghost is not None and a.ghost[0] is b.ghost[0] and r.ghost is None:
+            r.ghost = (a.ghost[0], [gite(c, x, y) for x, y in zip(a.ghost[1], b.ghost[1])])
+        return r
     if ta is SRef:
         return mk_sref(merge(c, a.val, b.val, ctx))
     if ta is BoxV:
@@ -527,6 +554,17 @@ def merge(c, a, b, ctx=None):
         if a == b:
             return a
         raise Unmergeable()
+    if ta is TableV:
+        return a
+    if ta is MapV:
+        ia, ib = a.items, b.items
+        n = 0
+        while n < len(ia) and n < len(ib) and ia[n][0] is ib[n][0] and ia[n][1] is ib[n][1] and ia[n][2] is ib[n][2]:
+            n += 1
+        out = list(ia[:n])
+        out += [(gand(c, g), k, v) for g, k, v in ia[n:]]
+        out += [(gand(gnot(c), g), k, v) for g, k, v in ib[n:]]
+        return MapV(out)
     _unm(a, b)
 
 
